@@ -155,6 +155,7 @@ func (cls *CachedLocations) Open(ctx *Context, sys *System, name string, check b
 			// requests are counted per entry, and a Release
 			// finds the entry by name.
 			cls.Unlock()
+			VerifYield("CachedLocations.Open.unlocked")
 			return cl.get(ctx, sys, name, check, false)
 		}
 		ctl := sys.Control()
@@ -339,6 +340,9 @@ func (cl *CachedLocation) get(ctx *Context, sys *System, name string, checkExist
 	// releases it: see expire.  (Removing it here, by name, could hit
 	// the entry of a request that has replaced ours meanwhile, and the
 	// Release of this request would then be counted against that entry.)
+	if nil == cl.Location {
+		VerifYield("CachedLocation.get.failed")
+	}
 
 	return loc, err
 }
